@@ -111,6 +111,7 @@ var genericScopes = map[string]genericScope{
 	"C19": {"R19.7", "", modset("rewards"), 90, 0},
 	"C17": {"R17.7", "", modset("bandoracle", "market"), 1, 0},
 	"C06": {"R06.9", "", modset("liquidity"), 100, 0},
+	"C03": {"", "R03.13", modset("vault"), 0, 14},
 }
 
 func genericFor(id string, p *Prog, r *Report) {
@@ -133,6 +134,8 @@ func genericFor(id string, p *Prog, r *Report) {
 	case "C19":
 		selfDecrementRule(p, r, "R19.9", modset("rewards"), "AvailableRewards", 3)
 		reserveSideRule(p, r, "R19.10", 4)
+	case "C10":
+		ignoredIDParamRule(p, r, "R10.14", modset("vault", "auction", "auctionsV2"), 100)
 	case "C07":
 		freshOrderIndexedRule(p, r, "R07.9", 2)
 	case "C04":
